@@ -48,6 +48,15 @@ CLAIMED = {
  "C20": ("3.7, 5 (C20)",
    "Props/C20.v: for ALL strings and widths >= 1 the abbreviation helper returns min(len,w) characters, leaves a fitting string unchanged and otherwise keeps w-1 characters plus the '#' marker; every job row is exactly as wide as the header row for arbitrary cell contents in all four table variants; the table is heading + true job count + header + dashes + exactly one row per job in ascending due-time order. Tied by re-translation of str_cutoff (Tie lemma) and by comparing str(scheduler), str(job) and str_cutoff of the real code with the extracted model over all callable kinds (def, lambda, builtin, bound/static/class method, partial, callable instance, class; asyncio variants), aliases, weights, attempt counts, timezone names and due distances, both front ends.",
    "Coq kernel; extraction + driver; translator; CPython's rendering of datetime/timedelta/float/tzname and callable attributes enters the model as strings (modelled not verified); 'never raises' for the callable kinds is exhaustive testing of a finite table", T_TIE),
+ "C14": ("3.5, 5 (C14)",
+   "Props/C14.v over the micro-operation model (Model/Conc.v): a concurrent execution is an arbitrary list of the atomic actions the code's locks define, so the theorems hold for all interleavings of any number of threads: the shared state stays well formed and no micro-operation fails with an internal error; an id that left the job set is never resurrected; every exec_jobs batch is duplicate free and consists of jobs registered when their priority was read; a job outside the job set when a call starts is never chosen by it. 'Never beyond its attempt budget' is REFUTED for overlapping exec_jobs calls (known finding, replayed on the implementation). Tied by deterministic thread scheduling of the REAL code (line-level switches, cooperative RLock/Thread/Queue shims): the atomic actions logged in execution order are replayed on the extracted model and results, the job set and the final job states must agree; 2-4 caller threads x 1-3 operations of all kinds.",
+   "Coq kernel; extraction + driver; DST harness (cooperative shims replace OS preemption/GIL: partial); atomicity of single set operations assumed", T_SEQ),
+ "C15": ("3.5, 5 (C15)",
+   "Props/C15.v: with one worker, for arbitrary callback programs (query, schedule, delete others, delete itself, clear) exec_jobs returns normally, invokes and reschedules its whole batch, keeps the state good; the batch is fixed before any callback runs (jobs scheduled from callbacks are not run in the same call); deleted ids never return; a single running thread can always acquire the locks it asks for. For several workers the no-deadlock claim is REFUTED (lock-order inversion when a callback prints the scheduler while another uses it): known finding with a Coq witness and a DST witness on the implementation. Tied by the sequential re-entrant stream and by DST runs with n_threads in {1,2,0} and callback programs.",
+   "as C14; deadlock = no enabled thread under the cooperative scheduler", T_SEQ),
+ "C16": ("3.5, 5 (C16)",
+   "Props/C16.v over the worker-pool model: for every worker count and every interleaving of the workers each selected job is in exactly one of queue/running/done, at most m run at once, no job twice or overlapping itself, and when all workers have exited every job has been run exactly once; with n_threads=0 all can overlap; the resulting attempts/failures do not depend on the order (= sequential execution). Tied by DST runs of the real code with n_threads in {0,1,2,3,5} against batches of 0-6 jobs: callbacks logged start/finish, maximum overlap, completion before return, final state vs the model.",
+   "as C14; true simultaneity is runtime (observed under cooperative scheduling)", T_SEQ),
  "C17": ("3.6, 5 (C17)",
    "Props/C17.v over the discrete-event model of the asyncio scheduler (Model/Aio.v): the supervisor resumes at max(reference, due) -- never early, no further delay; the coroutine starts at that instant with the scheduled arguments; on completion the job is counted and rescheduled by the SAME job_cycle function the C01-C09 theorems are about, with the completion instant as reference; resuming one job's task touches no other job's record; the state invariant holds after every operation and any amount of virtual time. Tied by running the real asyncio scheduler on a virtual-time event loop (integer-microsecond clock, datetime.now derived from it) against the extracted model: all job types, batching, skip_missing, stop, limits, failing coroutines, durations 0/shorter/equal/longer than the period.",
    "Coq kernel; extraction + driver; the asyncio event loop is modelled (discrete events), not verified; same-instant ordering between different jobs is not compared; wall-clock effects out of scope", T_SEQ),
